@@ -458,14 +458,12 @@ Section LoopProofs.
   Qed.
 
   (* --- body --- *)
-  (* C09_holds: no stray close bracket from i0 on => body terminates, and its Ok result has consumed
-     everything *)
-  Lemma body_loop_terminates : forall i0 fuel i log,
-    (forall k, i0 <= k -> k < len -> close_at k = false) ->
-    i0 <= i -> i <= len -> Forall cr_ok log -> len - i < fuel ->
-    exists r, bloop fuel i log = Some r /\ sres_ok r /\ forall j lg, r = SOk j lg -> j = len.
+  (* body terminates (the progress check of fix d162281 makes every continuing iteration advance) *)
+  Lemma body_loop_terminates : forall fuel i log,
+    i <= len -> Forall cr_ok log -> len - i < fuel ->
+    exists r, bloop fuel i log = Some r /\ sres_ok r /\ forall j lg, r = SOk j lg -> i <= j.
   Proof.
-    intros i0 fuel. induction fuel as [|f IH]; intros i log Hnc Hi0 Hi Hl Hf; [lia|].
+    induction fuel as [|f IH]; intros i log Hi Hl Hf; [lia|].
     unfold bloop. cbn [body_loop]. fold bstepf. unfold bstepf, body_step. fold sect.
     destruct (Nat.leb len i) eqn:Hle.
     - apply Nat.leb_le in Hle. exists (SOk i log). split; [reflexivity|]. split; [cbn; split; [lia|exact Hl]|].
@@ -473,21 +471,27 @@ Section LoopProofs.
     - apply Nat.leb_gt in Hle.
       destruct (section_terminates i log Hi Hl) as [r [Hr [Hok Hj]]]. rewrite Hr.
       destruct r as [j lg|s k lg].
-      + destruct (Hj j lg eq_refl) as [A B]. specialize (B Hle (Hnc i Hi0 Hle)).
+      + destruct (Hj j lg eq_refl) as [A _].
         cbn in Hok. destruct Hok as [C D].
-        destruct (IH j lg Hnc ltac:(lia) C D ltac:(lia)) as [r' [Hr' [Hok' Hj']]].
-        exists r'. fold bloop. split; [exact Hr'|]. split; assumption.
+        destruct (Nat.eqb j i) eqn:Hji.
+        * exists (SOk i log). split; [reflexivity|]. split; [cbn; split; [lia|exact Hl]|].
+          intros j0 lg0 Heq. inversion Heq; subst. lia.
+        * apply Nat.eqb_neq in Hji.
+          destruct (IH j lg C D ltac:(lia)) as [r' [Hr' [Hok' Hj']]].
+          exists r'. fold bloop. split; [exact Hr'|]. split; [exact Hok'|].
+          intros j0 lg0 Heq. specialize (Hj' j0 lg0 Heq). lia.
       + exists (SErr s k lg). split; [reflexivity|]. split; [exact Hok|]. intros j lg' Heq. discriminate.
   Qed.
 
-  (* C09_refuted (general form): a stray mika close bracket where a section starts makes `section`
-     return Ok without consuming, so `body` never returns, whatever the fuel. *)
-  Theorem body_hangs_at_close : forall i log,
+  (* what the check repairs: WITHOUT it, a stray mika close bracket where a section starts makes `section`
+     return Ok without consuming, and the loop never returns, whatever the fuel (the behaviour of the code before
+     fix d162281: parser::parse("⸥") did not return). *)
+  Theorem unguarded_body_hangs_at_close : forall i log,
     i < len -> close_at i = true -> ul_subtitle i = None ->
-    forall fuel, bloop fuel i log = None.
+    forall fuel, body_loop_unguarded len not_mech alt subtitle_at skip_eos term close_at ul_subtitle mika sect_elem blank_lines fuel i log = None.
   Proof.
     intros i log Hi Hc Hul fuel. induction fuel as [|f IH]; [reflexivity|].
-    unfold bloop. cbn [body_loop]. unfold body_step.
+    cbn [body_loop_unguarded]. unfold body_step_unguarded.
     assert (Hle : Nat.leb len i = false) by (apply Nat.leb_gt; exact Hi). rewrite Hle.
     unfold section. rewrite Hul. cbn [section_loop]. unfold section_step. rewrite Hle, Hul, Hc.
     exact IH.
@@ -517,18 +521,17 @@ Section LoopProofs.
       + split; [discriminate|exact Hl].
   Qed.
 
-  (* parse_outcome_total: without stray close brackets the model of parse() returns, and it returns
-     Ok(tree) only when the whole input has been consumed and nothing was logged; otherwise a non-empty
-     report all of whose ranges are built from cursors inside the source. *)
+  (* parse_outcome_total: the model of parse() always returns, and it returns Ok(tree) only when the whole input
+     has been consumed and nothing was logged; otherwise a non-empty report all of whose ranges are built from
+     cursors inside the source. *)
   Theorem parse_outcome_total :
-    (forall k, k < len -> close_at k = false) ->
     match parsef with
     | PTree f => f = len
     | PReport rep => rep <> [] /\ Forall cr_ok rep
     | PHang => False
     end.
   Proof.
-    intros Hnc. unfold parsef, parse, program, body.
+    unfold parsef, parse, program, body.
     destruct (ws0_rng 0 ltac:(lia)) as [W1 W2].
     set (i1 := ws0 0) in *.
     assert (Ht : exists i2 log0, (match title i1 with Some (j, lg) => (j, lg) | None => (i1, []) end) = (i2, log0)
@@ -539,13 +542,12 @@ Section LoopProofs.
     destruct Ht as [i2 [log0 [Ht [Hi2 Hl0]]]]. rewrite Ht.
     destruct (ws0_rng i2 Hi2) as [V1 V2].
     fold bloop.
-    destruct (body_loop_terminates 0 (S len) (ws0 i2) log0 ltac:(intros; apply Hnc; assumption) ltac:(lia) V2 Hl0 ltac:(lia))
-      as [r [Hr [Hok Hj]]].
+    destruct (body_loop_terminates (S len) (ws0 i2) log0 V2 Hl0 ltac:(lia)) as [r [Hr [Hok Hj]]].
     rewrite Hr. destruct r as [j lg|s k lg].
-    - specialize (Hj j lg eq_refl). subst j. cbn in Hok. destruct Hok as [A B].
-      destruct (ws0_rng len ltac:(lia)) as [U1 U2].
-      pose proof (finish_facts true (ws0 len) lg U2 B ltac:(discriminate)) as Hf.
-      destruct (finish len true (ws0 len) lg) as [f|rep|]; [|exact Hf|exact Hf].
+    - cbn in Hok. destruct Hok as [A B].
+      destruct (ws0_rng j A) as [U1 U2].
+      pose proof (finish_facts true (ws0 j) lg U2 B ltac:(discriminate)) as Hf.
+      destruct (finish len true (ws0 j) lg) as [f|rep|]; [|exact Hf|exact Hf].
       destruct Hf as [Hf _]. exact Hf.
     - cbn in Hok. destruct Hok as [A [B C]].
       pose proof (finish_facts false k (lg ++ [CR s k true]) B ltac:(apply Forall_snoc; [exact C|cbn; lia])
@@ -625,15 +627,14 @@ Proof.
   eapply section_terminates; eassumption.
 Qed.
 
-Theorem L_body_hangs_at_close : forall L i log,
+Theorem L_unguarded_body_hangs_at_close : forall L i log,
   i < l_len L -> l_close_at L i = true -> l_ul_subtitle L i = None ->
-  forall fuel, L_body_loop L fuel i log = None.
+  forall fuel, L_body_loop_unguarded L fuel i log = None.
 Proof.
-  intros L. destruct L; cbn in *. intros. apply body_hangs_at_close; assumption.
+  intros L. destruct L; cbn in *. intros. apply unguarded_body_hangs_at_close; assumption.
 Qed.
 
 Theorem L_parse_outcome_total : forall L, leaf_ok L ->
-  (forall k, k < l_len L -> l_close_at L k = false) ->
   match L_parse L with
   | PTree f => f = l_len L
   | PReport rep => rep <> [] /\ Forall (Lcr_ok L) rep
@@ -644,13 +645,14 @@ Proof.
   eapply parse_outcome_total; eassumption.
 Qed.
 
-(* ---- the concrete refutation: the source "⸥" ---- *)
-Theorem stray_close_never_returns : forall fuel, L_body_loop stray_leaves fuel 0 [] = None.
+(* ---- the concrete instance: the source "⸥" ---- *)
+Theorem stray_close_unguarded_never_returns : forall fuel, L_body_loop_unguarded stray_leaves fuel 0 [] = None.
 Proof.
-  intros fuel. apply L_body_hangs_at_close; [cbn; lia|reflexivity|reflexivity].
+  intros fuel. apply L_unguarded_body_hangs_at_close; [cbn; lia|reflexivity|reflexivity].
 Qed.
 
-Lemma stray_parse_hangs : L_parse stray_leaves = PHang.
+(* with the progress check the same source yields a one-entry report "Inputs since here are not parsed" at 1:1 *)
+Lemma stray_parse_reports : L_parse stray_leaves = PReport [CR 0 0 true].
 Proof. vm_compute. reflexivity. Qed.
 
 (* everything that is assumed holds of the stray instance except the absence of a stray close: the
@@ -809,14 +811,6 @@ Definition C09_obs_spec (text : string) (p : pobs) : Prop :=
 Lemma is_nil_spec : forall A (l : list A), is_nil l = true -> l = [].
 Proof. intros A l H. destruct l; [reflexivity|discriminate]. Qed.
 
-Lemma corb_false_ranges : forall ws (l : list srange),
-  forallb (fun r => range_okb ws r || (false && is_zero r)) l = true -> Forall (range_within ws) l.
-Proof.
-  intros ws l H. apply Forall_forall. intros r Hr. rewrite forallb_forall in H. specialize (H r Hr).
-  cbn [andb] in H. rewrite orb_false_r in H. unfold range_okb in H. rewrite andb_true_iff in H.
-  apply range_withinb_spec. tauto.
-Qed.
-
 Lemma okb_ranges : forall ws (l : list srange),
   forallb (range_okb ws) l = true -> Forall (range_within ws) l.
 Proof.
@@ -824,28 +818,22 @@ Proof.
   unfold range_okb in H. rewrite andb_true_iff in H. apply range_withinb_spec. tauto.
 Qed.
 
-Lemma obs_corb_sound : forall text p, obs_corb text p false = true -> po_flags p = [] -> C09_obs_spec text p.
+Lemma obs_okb_sound : forall text p, obs_okb text p = true -> C09_obs_spec text p.
 Proof.
-  intros text p H Hfl. unfold obs_corb in H. rewrite !andb_true_iff in H.
-  destruct H as [[[[[[H1 H2] H3] H4] H5] H6] H7].
+  intros text p H. unfold obs_okb in H. rewrite !andb_true_iff in H.
+  destruct H as [[[[[[[H1 H2] H3] H4] H5] H6] Hfl] H7].
   unfold C09_obs_spec.
   split. { intros Ht. rewrite Ht in H7. discriminate. }
   split. { exact H1. }
   split. { apply Z.eqb_eq. exact H2. }
   split. { apply table_okb_spec. exact H3. }
-  split. { apply Forall_app. split; [apply corb_false_ranges; exact H4|apply okb_ranges; exact H5]. }
-  split. { exact Hfl. }
+  split. { apply Forall_app. split; apply okb_ranges; assumption. }
+  split. { apply is_nil_spec. exact Hfl. }
   split. { apply Forall_forall. intros h Hh. apply hrec_okb_spec. rewrite forallb_forall in H6. apply H6. exact Hh. }
   split.
   - intros Ht. rewrite Ht in H7. rewrite andb_true_iff in H7. destruct H7 as [A B].
     split; apply is_nil_spec; assumption.
   - intros Ht. rewrite Ht in H7. intros Hc. rewrite Hc in H7. discriminate.
-Qed.
-
-Lemma obs_okb_sound : forall text p, obs_okb text p = true -> C09_obs_spec text p.
-Proof.
-  intros text p H. unfold obs_okb in H. rewrite andb_true_iff in H. destruct H as [H1 H2].
-  apply obs_corb_sound; [exact H1|apply is_nil_spec; exact H2].
 Qed.
 
 Lemma v_ok_not_kf : forall t i, v_kf i <> v_ok t.
@@ -859,29 +847,11 @@ Theorem judge_parse_sound : forall text o tag,
   judge_parse text o = v_ok tag -> exists p, o = RParse p /\ C09_obs_spec text p.
 Proof.
   intros text o tag H. unfold judge_parse in H. destruct o as [p| | |].
-  - assert (Hgen : (if obs_okb text p then v_ok (match po_tag p with TgOk => "tree"%string | _ => "report"%string end)
-             else if obs_corb text p true && flags_matchb text p then
-               if existsb is_zero (po_causes p) then
-                 (if kf_fence_zero text then v_kf "fence-zero-range" else v_bad "range-outside-input" (Ax "ok-or-err-in-range"))
-               else v_kf "fmt-count-underflow"
-             else v_bad (first_bad text p) (Ax "ok-or-err-in-range")) = v_ok tag ->
-             exists p0, RParse p = RParse p0 /\ C09_obs_spec text p0).
-    { intros G. destruct (obs_okb text p) eqn:Hok.
-      - exists p. split; [reflexivity|apply obs_okb_sound; exact Hok].
-      - exfalso. destruct (obs_corb text p true && flags_matchb text p).
-        + destruct (existsb is_zero (po_causes p)).
-          * destruct (kf_fence_zero text); [exact (v_ok_not_kf _ _ G)|exact (v_ok_not_bad _ _ _ G)].
-          * exact (v_ok_not_kf _ _ G).
-        + exact (v_ok_not_bad _ _ _ G). }
-    destruct (po_tag p) eqn:Ht.
-    + apply Hgen. exact H.
-    + apply Hgen. exact H.
-    + exfalso. destruct (kf_ebnf text && po_same p); [exact (v_ok_not_kf _ _ H)|].
-      destruct (kf_empty_eq text && po_same p); [exact (v_ok_not_kf _ _ H)|exact (v_ok_not_bad _ _ _ H)].
-  - exfalso. destruct (kf_mika_close text); [exact (v_ok_not_kf _ _ H)|].
-    destruct (kf_exp_nesting text); [exact (v_ok_not_kf _ _ H)|exact (v_ok_not_bad _ _ _ H)].
-  - exfalso. destruct (kf_mika_close text); [exact (v_ok_not_kf _ _ H)|].
-    destruct (kf_stack_run text); [exact (v_ok_not_kf _ _ H)|exact (v_ok_not_bad _ _ _ H)].
+  - destruct (obs_okb text p) eqn:Hok.
+    + exists p. split; [reflexivity|apply obs_okb_sound; exact Hok].
+    + exfalso. exact (v_ok_not_bad _ _ _ H).
+  - exfalso. destruct (kf_exp_nesting text); [exact (v_ok_not_kf _ _ H)|exact (v_ok_not_bad _ _ _ H)].
+  - exfalso. destruct (kf_stack_run text); [exact (v_ok_not_kf _ _ H)|exact (v_ok_not_bad _ _ _ H)].
   - exfalso. exact (v_ok_not_bad _ _ _ H).
 Qed.
 
@@ -909,97 +879,26 @@ Proof.
   exists text, o, p. split; [reflexivity|split; [exact Hp|exact Hspec]].
 Qed.
 
-Lemma existsb_firstn_false : forall (f : srange -> bool) n l, existsb f l = false -> existsb f (firstn n l) = false.
-Proof.
-  intros f n. induction n as [|n IH]; intros l H; [reflexivity|].
-  destruct l as [|x r]; [reflexivity|]. cbn [firstn existsb] in *.
-  apply orb_false_iff in H. destruct H as [A B]. rewrite A, (IH r B). reflexivity.
-Qed.
-
-Lemma corb_no_zero : forall ws (l : list srange),
-  existsb is_zero l = false ->
-  forallb (fun r => range_okb ws r || (true && is_zero r)) l = true ->
-  forallb (fun r => range_okb ws r || (false && is_zero r)) l = true.
-Proof.
-  intros ws l. induction l as [|x r IH]; intros Hz H; [reflexivity|].
-  cbn [existsb forallb] in *. apply orb_false_iff in Hz. destruct Hz as [A B].
-  rewrite andb_true_iff in H. destruct H as [C D].
-  rewrite (IH B D). cbn [andb] in *. rewrite A in C. rewrite orb_false_r in *. rewrite C. reflexivity.
-Qed.
-
 (* a known-finding verdict is given only inside its class and only for the predicted wrong behaviour *)
 Theorem judge_kf_narrow : forall text o id,
   judge_parse text o = v_kf id ->
-  (id = "mika-close-loop"%string /\ (o = RHang \/ o = RAbort) /\ kf_mika_close text = true) \/
-  (id = "exp-nesting"%string /\ o = RHang /\ kf_mika_close text = false /\ nest_threshold <= nest_depth text) \/
-  (id = "stack-overflow-prefix-run"%string /\ o = RAbort /\ kf_mika_close text = false /\ run_threshold <= max_prefix_run text) \/
-  (id = "ebnf-todo-panic"%string /\ exists p, o = RParse p /\ po_tag p = TgPanic /\ po_same p = true /\ kf_ebnf text = true) \/
-  (id = "empty-inline-equation"%string /\ exists p, o = RParse p /\ po_tag p = TgPanic /\ po_same p = true /\ kf_empty_eq text = true) \/
-  (id = "fence-zero-range"%string /\ exists p, o = RParse p /\ po_tag p <> TgPanic /\ kf_fence_zero text = true /\
-      existsb is_zero (po_causes p) = true /\ obs_corb text p true = true /\ flags_matchb text p = true) \/
-  (id = "fmt-count-underflow"%string /\ exists p, o = RParse p /\ po_flags p = ["fmtpanic"%string] /\
-      (byte_lenZ text < Z.min (Z.of_nat (List.length (po_causes p))) 10)%Z /\
-      C09_obs_spec text (PO (po_tag p) (po_same p) (po_causes p) (po_annots p) (po_nlines p) (po_lens p) (po_widths p) [] (po_hook p))).
+  (id = "exp-nesting"%string /\ o = RHang /\ nest_threshold <= nest_depth text) \/
+  (id = "stack-overflow-prefix-run"%string /\ o = RAbort /\ run_threshold <= max_prefix_run text).
 Proof.
   intros text o id H. unfold judge_parse in H. destruct o as [p| | |].
-  - assert (Hgen : po_tag p <> TgPanic ->
-             (if obs_okb text p then v_ok (match po_tag p with TgOk => "tree"%string | _ => "report"%string end)
-             else if obs_corb text p true && flags_matchb text p then
-               if existsb is_zero (po_causes p) then
-                 (if kf_fence_zero text then v_kf "fence-zero-range" else v_bad "range-outside-input" (Ax "ok-or-err-in-range"))
-               else v_kf "fmt-count-underflow"
-             else v_bad (first_bad text p) (Ax "ok-or-err-in-range")) = v_kf id ->
-             (id = "fence-zero-range"%string /\ exists p0, RParse p = RParse p0 /\ po_tag p0 <> TgPanic /\ kf_fence_zero text = true /\
-                existsb is_zero (po_causes p0) = true /\ obs_corb text p0 true = true /\ flags_matchb text p0 = true) \/
-             (id = "fmt-count-underflow"%string /\ exists p0, RParse p = RParse p0 /\ po_flags p0 = ["fmtpanic"%string] /\
-                (byte_lenZ text < Z.min (Z.of_nat (List.length (po_causes p0))) 10)%Z /\
-                C09_obs_spec text (PO (po_tag p0) (po_same p0) (po_causes p0) (po_annots p0) (po_nlines p0) (po_lens p0) (po_widths p0) [] (po_hook p0)))).
-    { intros Hnp G. destruct (obs_okb text p) eqn:Hok; [inversion G|].
-      destruct (obs_corb text p true && flags_matchb text p) eqn:Hc; [|inversion G].
-      rewrite andb_true_iff in Hc. destruct Hc as [Hcore Hfm].
-      destruct (existsb is_zero (po_causes p)) eqn:Hz.
-      - destruct (kf_fence_zero text) eqn:Hf; [|inversion G].
-        left. inversion G. split; [reflexivity|]. exists p. repeat split; assumption.
-      - right. inversion G. split; [reflexivity|]. exists p. split; [reflexivity|].
-        (* no zero cause: the core holds strictly; so the flags are the reason *)
-        assert (Hstrict : obs_corb text p false = true).
-        { unfold obs_corb in *. rewrite !andb_true_iff in *.
-          destruct Hcore as [[[[[[A1 A2] A3] A4] A5] A7] A6]. repeat split; try assumption.
-          apply corb_no_zero; assumption. }
-        unfold obs_okb in Hok. rewrite Hstrict in Hok. cbn [andb] in Hok.
-        unfold flags_matchb, pred_fmtpanic in Hfm.
-        rewrite (existsb_firstn_false is_zero 10 _ Hz) in Hfm. cbn [orb] in Hfm.
-        destruct (po_flags p) as [|f [|f2 fr]] eqn:Hfl; try discriminate.
-        rewrite andb_true_iff in Hfm. destruct Hfm as [F1 F2].
-        apply String.eqb_eq in F1. subst f.
-        split; [reflexivity|]. split.
-        + unfold kf_fmt_underflow, fmt_count, fmt_shown in F2. apply Z.ltb_lt in F2. lia.
-        + apply obs_corb_sound; [|reflexivity].
-          unfold obs_corb in *. cbn [po_tag po_same po_causes po_annots po_nlines po_lens po_widths po_hook]. exact Hstrict. }
-    destruct (po_tag p) eqn:Ht.
-    + destruct (Hgen ltac:(discriminate) H) as [G|G]; [right; right; right; right; right; left; exact G|right; right; right; right; right; right; exact G].
-    + destruct (Hgen ltac:(discriminate) H) as [G|G]; [right; right; right; right; right; left; exact G|right; right; right; right; right; right; exact G].
-    + destruct (kf_ebnf text && po_same p) eqn:He.
-      * rewrite andb_true_iff in He. destruct He as [E1 E2].
-        right. right. right. left. inversion H. split; [reflexivity|]. exists p. repeat split; assumption.
-      * destruct (kf_empty_eq text && po_same p) eqn:He2; [|inversion H].
-        rewrite andb_true_iff in He2. destruct He2 as [E1 E2].
-        right. right. right. right. left. inversion H. split; [reflexivity|]. exists p. repeat split; assumption.
-  - destruct (kf_mika_close text) eqn:Hm.
-    + left. inversion H. split; [reflexivity|]. split; [left; reflexivity|reflexivity].
-    + destruct (kf_exp_nesting text) eqn:Hn; [|inversion H].
-      right. left. inversion H. repeat split; try reflexivity.
-      unfold kf_exp_nesting in Hn. apply Nat.leb_le in Hn. exact Hn.
-  - destruct (kf_mika_close text) eqn:Hm.
-    + left. inversion H. split; [reflexivity|]. split; [right; reflexivity|reflexivity].
-    + destruct (kf_stack_run text) eqn:Hn; [|inversion H].
-      right. right. left. inversion H. repeat split; try reflexivity.
-      unfold kf_stack_run in Hn. apply Nat.leb_le in Hn. exact Hn.
+  - destruct (obs_okb text p); inversion H.
+  - destruct (kf_exp_nesting text) eqn:Hn; [|inversion H].
+    left. inversion H. repeat split; try reflexivity.
+    unfold kf_exp_nesting in Hn. apply Nat.leb_le in Hn. exact Hn.
+  - destruct (kf_stack_run text) eqn:Hn; [|inversion H].
+    right. inversion H. repeat split; try reflexivity.
+    unfold kf_stack_run in Hn. apply Nat.leb_le in Hn. exact Hn.
   - inversion H.
 Qed.
 
-(* finding fence-zero-range: SourceRange::default() = 0:0-0:0 lies outside every input (rows and columns are 1-based)
-   and makes err_location's `end.col - 1` underflow; no range built from cursors is of that form (ranges_in_bounds) *)
+(* SourceRange::default() = 0:0-0:0 (what the hand-built ParseErrors carried before fix 6eb0df4) lies outside every
+   input (rows and columns are 1-based) and makes err_location's `end.col - 1` underflow; no range built from
+   cursors is of that form (ranges_in_bounds) *)
 Theorem zero_range_outside : forall ws,
   range_withinb ws (SR 0 0 0 0) = false /\ fmt_safeb (SR 0 0 0 0) = false /\ is_zero (SR 0 0 0 0) = true.
 Proof. intros ws. repeat split; reflexivity. Qed.
@@ -1013,16 +912,6 @@ Proof.
   apply Z.eqb_eq in E. lia.
 Qed.
 
-(* format_error's `errors.0.len() - n`: negative exactly when the text is shorter (in bytes) than the
-   number of errors shown *)
-Theorem fmt_count_underflow_iff : forall text nerr,
-  kf_fmt_underflow text nerr = true <-> (byte_lenZ text < Z.min nerr 10)%Z.
-Proof.
-  intros text nerr. unfold kf_fmt_underflow, fmt_count, fmt_shown. rewrite Z.ltb_lt. lia.
-Qed.
-
-Theorem fmt_count_refuted : exists text nerr, (1 <= nerr)%Z /\ (fmt_count text nerr < 0)%Z.
-Proof. exists "["%string, 2%Z. split; [lia|vm_compute; reflexivity]. Qed.
-
-Theorem fmt_count_holds : forall text nerr, (10 <= byte_lenZ text)%Z -> (0 <= fmt_count text nerr)%Z.
-Proof. intros text nerr H. unfold fmt_count, fmt_shown. lia. Qed.
+(* format_error's count of errors not shown (`errors.1.len() - n`, n = min(len, 10), since fix 213fdb6) cannot underflow *)
+Theorem fmt_not_shown_nonneg : forall nerr, (0 <= nerr)%Z -> (0 <= fmt_not_shown nerr)%Z.
+Proof. intros nerr H. unfold fmt_not_shown. lia. Qed.
